@@ -477,3 +477,22 @@ package store
 //@   ensures the_right_end_is_the_left_end_plus_the_bytes_in_the_segment: rotWF(w)
 //@   ensures every_byte_accepted_moves_the_right_end_by_one: result == nil ==> w.right.v == old(w.right.v) + len(buf)
 //@   assert at call openFile: a_new_segment_is_opened_where_the_bytes_written_end: offset == w.left + w.filesize - headerSize
+
+// ---- looking a cache up never relabels it (C06) -------------------------------------------------
+// VerifyRunId answers "under which of these ids do I hold data": it opens the cache under an id whose
+// directory EXISTS (the one it just looked at) and never under another one - SetRunId to an id
+// without a directory renames the current directory, i.e. relabels cached bytes to a replication id
+// before the source has been asked whether they belong to it.
+//   statOk / lastJoinId  the last os.Stat succeeded / the id the directory name was built from last
+//@ func Storer.VerifyRunId
+//@   arith int
+//@   properties C06 C16
+//@   ghost var statOk mathint = 0
+//@   ghost var lastJoinId string = ""
+//@   requires nonnil: s != nil
+//@   modifies heap, statOk, lastJoinId
+//@   set lastJoinId = elem[1] after call Join
+//@   set statOk = ite(result1 == nil, 1, 0) after call Stat
+//@   assert at call SetRunId: a_lookup_opens_the_cache_only_under_an_id_it_is_filed_under: statOk == 1 && new == lastJoinId
+//@   loop 1:
+//@     invariant walking: s != nil && 0 - 1 <= rangeindex && rangeindex < len(ids)
